@@ -248,8 +248,8 @@ def parse_ts_literal(tok):
   raise core.TieBroken('literal %r is outside the parsed forms' % tok)
 
 
-def parse_default_values(text):
-  """[(type name, literal)] from the _defaultValues object literal; anything unexpected aborts."""
+def parse_default_pairs(text):
+  """[(type name, literal, sql string)] from the _defaultValues object literal; anything unexpected aborts."""
   out = []
   seen = set()
   for l in defaults_literal_lines(text):
@@ -264,27 +264,15 @@ def parse_default_values(text):
     if key in seen or key == '__proto__':
       raise core.TieBroken('_defaultValues key %r repeated/special' % key)
     seen.add(key)
-    out.append((key, parse_ts_literal(m.group(2))))
+    out.append((key, parse_ts_literal(m.group(2)), m.group(3)[1:-1]))
   if not out:
     raise core.TieBroken('_defaultValues is empty')
   return out
 
 
-# functions of gristTypes.ts that the model of the Node side was written from (whitespace-normalised)
-TS_FUNCS = {
-  'getDefaultForType':
-    'export function getDefaultForType(colType: string, options: { sqlFormatted?: boolean } = {}) { '
-    'const type = extractTypeFromColType(colType); '
-    'return (_defaultValues[type as GristType] || _defaultValues.Any)[options.sqlFormatted ? 1 : 0]; }',
-  'extractTypeFromColType':
-    'export function extractTypeFromColType(type: string): string { if (!type) { return type; } '
-    'const colon = type.indexOf(":"); return (colon === -1 ? type : type.slice(0, colon)); }',
-}
-
-
-def ts_function_text(text, name):
-  m = re.search(r'^export function %s\(.*?^\}' % re.escape(name), text, re.S | re.M)
-  return None if not m else ' '.join(m.group(0).split())
+def parse_default_values(text):
+  """[(type name, literal)]: the first components."""
+  return [(k, v) for k, v, _ in parse_default_pairs(text)]
 
 
 # --- the value Node sees (Python mirror of py_wire / ts_wire in the model; used by search and as expected outputs)
@@ -413,7 +401,7 @@ def regenerate(ctx):
     _regenerate(ctx)
   except Exception as e:
     # never leave data of an earlier run behind: the theorems must not be checked against stale files
-    for name in ('PySchema_gen.v', 'TsSchema_gen.v'):
+    for name in ('PySchema_gen.v', 'TsSchema_gen.v', 'JsGen_gen.v', 'TsGen_gen.v'):
       if name not in ctx.extra.get('regenerated', []):
         core.write_if_changed(os.path.join(GEN, name),
                               '(* regeneration failed on this run: the data could not be extracted *)\n'
@@ -435,14 +423,29 @@ def _regenerate(ctx):
   core.write_if_changed(os.path.join(GEN, 'PySchema_gen.v'), py_text)
   ctx.extra.setdefault('regenerated', []).append('PySchema_gen.v')
 
-  tsd = parse_default_values(gristtypes_text())
+  tsp = parse_default_pairs(gristtypes_text())
+  tsd = [(k, v) for k, v, _ in tsp]
   ts_text = (HEAD % 'app/common/schema.ts, app/common/gristTypes.ts (_defaultValues)' +
              '(* the text of app/common/schema.ts, as code points *)\n' +
              coq_text_chunks('schema_ts_text', schema_ts_text()) + '\n\n' +
-             '(* first components of gristTypes.ts _defaultValues *)\n'
-             'Definition ts_default_values : list (list Z * ts_lit) :=\n  %s.\n' % coq_pairs(tsd, coq_ts_lit))
+             '(* gristTypes.ts _defaultValues: name -> [default, its SQLite representation] *)\n'
+             'Definition ts_default_pairs : list (list Z * (ts_lit * ts_lit)) :=\n  %s.\n\n' %
+             core.coq_list(['(%s, (%s, TsStr %s))' % (S(k), coq_ts_lit(v), S(q)) for k, v, q in tsp]) +
+             '(* the first components *)\n'
+             'Definition ts_default_values : list (list Z * ts_lit) := first_components ts_default_pairs.\n')
   core.write_if_changed(os.path.join(GEN, 'TsSchema_gen.v'), ts_text)
   ctx.extra['regenerated'].append('TsSchema_gen.v')
+
+  # the deciding CODE of both sides, translated on every run (fail closed)
+  from harness import js2v, ts2v
+  try:
+    core.write_if_changed(os.path.join(GEN, 'JsGen_gen.v'),
+                          js2v.translate_all(repo_path('sandbox', 'gen_js_schema.py'), os.path.join(core.GRIST, 'usertypes.py')))
+    ctx.extra['regenerated'].append('JsGen_gen.v')
+    core.write_if_changed(os.path.join(GEN, 'TsGen_gen.v'), ts2v.translate(gristtypes_text()))
+    ctx.extra['regenerated'].append('TsGen_gen.v')
+  except js2v.Untranslatable as e:
+    raise core.TieBroken('outside the translated subset: %s' % e)
   ctx.extra['data'] = {'schema_version': version, 'tables': len(tables),
                        'columns': sum(len(c) for _, c in tables), 'schema_ts_chars': len(schema_ts_text()),
                        'py_default_types': len(pyd), 'ts_default_types': len(tsd), 'ts_types': len(tt)}
@@ -601,6 +604,105 @@ def node_eval_defaults(text):
   return out
 
 
+TS_NAMES = ('extractTypeFromColType', 'getDefaultForType')
+PROTO_NAMES = ['constructor', '__defineGetter__', '__defineSetter__', 'hasOwnProperty', '__lookupGetter__',
+               '__lookupSetter__', 'isPrototypeOf', 'propertyIsEnumerable', 'toString', 'valueOf', '__proto__',
+               'toLocaleString']          # = Lib.JsPrelude.js_object_prototype_names; compared with node's list
+
+
+def detyped_ts_functions(text):
+  """JavaScript source of the two gristTypes.ts functions: the type annotations are removed textually
+  (independently of harness/ts2v.py's parser), so that node can run the real code."""
+  out = []
+  for name in TS_NAMES:
+    ms = re.findall(r'^export (function %s\(.*?^\})' % name, text, re.S | re.M)
+    if len(ms) != 1:
+      raise core.TieBroken('gristTypes.ts: %s not found exactly once' % name)
+    head, body = ms[0].split('\n', 1)
+    head = re.sub(r':\s*\{[^}]*\}', '', head)          # `: { sqlFormatted?: boolean }`
+    head = re.sub(r':\s*string\b', '', head)
+    body = re.sub(r'\s+as\s+[A-Za-z_][A-Za-z0-9_]*', '', body)
+    out.append(head + '\n' + body)
+  return '\n'.join(out)
+
+
+def js_literal(v):
+  tag = v[0]
+  return {'null': lambda: 'null', 'bool': lambda: 'true' if v[1] else 'false', 'int': lambda: str(v[1]),
+          'float': lambda: 'B("%016x")' % v[1], 'str': lambda: json.dumps(v[1]), 'posinf': lambda: 'Infinity',
+          'neginf': lambda: '-Infinity'}[tag]()
+
+
+def js_table(pairs):
+  return '{' + ', '.join('%s: [%s, %s]' % (json.dumps(k), js_literal(v), json.dumps(q)) for k, v, q in pairs) + '}'
+
+
+NODE_FUNCS_SCRIPT = r'''
+const inp = JSON.parse(require('fs').readFileSync(0, 'utf8'));
+function B(hex) { return Buffer.from(hex, 'hex').readDoubleBE(0); }
+function enc(v) {
+  if (v === undefined) { return ['undefined']; }
+  if (v === null) { return ['null']; }
+  if (typeof v === 'boolean') { return ['bool', v]; }
+  if (typeof v === 'string') { return ['str', v]; }
+  if (typeof v === 'number') { const b = Buffer.alloc(8); b.writeDoubleBE(v); return ['num', b.toString('hex')]; }
+  return ['other', String(v)];
+}
+const out = [];
+for (const c of inp.cases) {
+  let r;
+  try {
+    const table = eval('(' + inp.tables[c.table] + ')');
+    const fns = new Function('_defaultValues', 'B', inp.fns + '\nreturn {getDefaultForType, extractTypeFromColType};')(table, B);
+    r = [enc(c.sql === null ? fns.getDefaultForType(c.colType) : fns.getDefaultForType(c.colType, {sqlFormatted: c.sql})),
+         fns.extractTypeFromColType(c.colType)];
+  } catch (e) { r = [['throw', String(e)], null]; }
+  out.push(r);
+}
+console.log(JSON.stringify({results: out, proto: Object.getOwnPropertyNames(Object.prototype)}));
+'''
+
+
+def node_run_ts_functions(fns_src, tables, cases):
+  """tables: [js source]; cases: [(table index, colType, sql flag or None)] -> ([(result, extracted type)], proto names)."""
+  node = shutil.which('node')
+  if not node:
+    return None
+  inp = {'fns': fns_src, 'tables': tables, 'cases': [{'table': t, 'colType': c, 'sql': q} for t, c, q in cases]}
+  p = subprocess.run([node, '-e', NODE_FUNCS_SCRIPT], input=json.dumps(inp).encode('utf8'), stdout=subprocess.PIPE,
+                     stderr=subprocess.PIPE, timeout=120)
+  if p.returncode != 0:
+    raise core.TieBroken('node cannot run the de-typed gristTypes.ts functions: ' + p.stderr.decode('utf8', 'replace')[-600:])
+  res = json.loads(p.stdout.decode('utf8'))
+  out = []
+  for w, ext in res['results']:
+    out.append((('num', int(w[1], 16)) if w[0] == 'num' else (w[0],) if w[0] in ('undefined', 'throw', 'null') else tuple(w), ext))
+  return out, res['proto']
+
+
+TS_LITS = [('null',), ('bool', True), ('bool', False), ('int', 0), ('int', 1), ('int', -7), ('int', 2 ** 53 - 1),
+           ('float', float_bits(0.5)), ('float', float_bits(-0.0)), ('str', ''), ('str', 'x'), ('posinf',), ('neginf',)]
+
+
+def gen_ts_case(rng, real_pairs):
+  """-> (table as [(name, literal, sql)], colType, sql flag or None)"""
+  if rng.random() < 0.3:
+    table = list(real_pairs)
+  else:
+    names = rng.sample(TYPE_NAMES + ['toString', 'constructor', 'valueOf'], rng.randint(0, 8))
+    if rng.random() < 0.6 and 'Any' not in names:
+      names.append('Any')
+    table = [(n, rng.choice(TS_LITS), rng.choice(['NULL', '0', "''", '1e999'])) for n in names]
+  r = rng.random()
+  t = (rng.choice(PROTO_NAMES) if r < 0.15 else rng.choice(TYPE_NAMES) if r < 0.6 or not table else rng.choice(table)[0])
+  r = rng.random()
+  if r < 0.3:
+    t = t + ':' + rng.choice(['Table1', 'America/New_York', '', 'a:b'])
+  elif r < 0.35:
+    t = ':' + t
+  return table, t, rng.choice([None, None, False, True])
+
+
 def check_not_stale(ctx):
   """The compiled theorems must have been checked against the data written by THIS run (guards against a make
   that wrongly found everything up to date, e.g. when its dependency file was being rewritten concurrently)."""
@@ -610,7 +712,7 @@ def check_not_stale(ctx):
     except OSError:
       return None
   prop_vo = mt(os.path.join(core.COQ, 'theories', 'Props', 'C38.vo'))
-  for name in ('PySchema_gen', 'TsSchema_gen'):
+  for name in ('PySchema_gen', 'TsSchema_gen', 'JsGen_gen', 'TsGen_gen'):
     v, vo = mt(os.path.join(GEN, name + '.v')), mt(os.path.join(GEN, name + '.vo'))
     if v is None or vo is None or vo < v or prop_vo is None or prop_vo < vo:
       ctx.broken('proof:Props/C38 is not built from the data of this run',
@@ -648,10 +750,13 @@ def correspond(ctx):
     coq.append('(%s, %s, %s)' % (coq_pairs(ts_types), coq_schema(v, tables), S(out)))
     kept.append((kind, ts_types, v, tables))
   ctx.log('render cases: %d (%d characters of generator output)' % (len(coq), nchars))
-  bad = ctx.run_cases('render', ['Grist.Model.JsSchema'],
-                      'fun c => zs_eqb (render (fst (fst c)) (snd (fst c))) (snd c)', coq, shard=40, timeout=600)
+  # the function TRANSLATED from gen_js_schema.py on this run (bridged to Model.JsSchema.render by gen_main_eq)
+  bad = ctx.run_cases('render', ['Grist.Model.JsSchema', 'GristGen.JsGen_gen'],
+                      'fun c => match JsGen_gen.main (fst (fst c)) (snd (fst c)) with Some t => zs_eqb t (snd c) | None => false end',
+                      coq, shard=40, timeout=600)
+  ctx.extra['translator_validation'] = {'js2v main vs gen_js_schema.main()': {'cases': len(coq), 'disagree': len(bad)}}
   for i in bad[:5]:
-    ctx.broken('correspondence:Model.JsSchema.render differs from gen_js_schema.main()', 'case %r' % (kept[i],))
+    ctx.broken('correspondence:translated gen_js_schema.main differs from the running main()', 'case %r' % (kept[i],))
 
   ctx.log('render cases evaluated: %d disagree' % len(bad))
 
@@ -668,16 +773,18 @@ def correspond(ctx):
     listed = pure_type(t) in dict(table)
     ctx.count(('default', repr(table), t), nontrivial=listed or ':' in t, kind='default:' + ('listed' if listed else 'unlisted'))
     dcases.append('(%s, %s, %s)' % (coq_pairs([(k, py_val(v)) for k, v in table], coq_py_val), S(t), coq_wire(got)))
-  bad = ctx.run_cases('defaults', ['Grist.Model.JsSchema'],
-                      'fun c => wire_same (py_wire (py_col_default (fst (fst c)) (snd (fst c)))) (snd c)', dcases,
+  bad = ctx.run_cases('defaults', ['Grist.Model.JsSchema', 'GristGen.JsGen_gen'],
+                      'fun c => wire_same (py_wire (JsGen_gen.get_type_default (fst (fst c)) (snd (fst c)))) (snd c)', dcases,
                       shard=60, extra_defs=
                       'Definition wire_same (a b : wire) : bool := match a, b with WBad, WBad => true | _, _ => wire_eqb a b end.')
+  ctx.extra['translator_validation']['js2v get_type_default vs usertypes.get_type_default'] = \
+      {'cases': len(dcases), 'disagree': len(bad)}
   for i in bad[:5]:
-    ctx.broken('correspondence:Model.JsSchema.py_col_default differs from usertypes.get_type_default', 'case %r' % (dkept[i],))
+    ctx.broken('correspondence:translated get_type_default differs from usertypes.get_type_default', 'case %r' % (dkept[i],))
 
   ctx.log('default cases evaluated: %d of %d disagree' % (len(bad), len(dcases)))
 
-  # (3) monitors on the Node side: parser vs node, and the text of the two functions the model follows
+  # (3) monitor on the Node side: the _defaultValues parser vs node evaluating the literal
   gt = gristtypes_text()
   parsed = parse_default_values(gt)
   ev = node_eval_defaults(gt)
@@ -688,12 +795,48 @@ def correspond(ctx):
     ctx.bump('monitor:node-evaluated-defaults', len(ev))
     if mine != ev:
       ctx.broken('monitor:_defaultValues parser disagrees with node', 'parser %r node %r' % (mine, ev))
-  for name, want in TS_FUNCS.items():
-    got = ts_function_text(gt, name)
-    ctx.bump('monitor:ts-function-text')
-    if got != want:
-      ctx.broken('monitor:gristTypes.ts %s is no longer the function the model was written from' % name,
-                 'now: %r' % (got,))
+  # (4) the functions translated from gristTypes.ts (ts2v) vs node running the real (de-typed) functions
+  real_pairs = parse_default_pairs(gt)
+  tkept = [(real_pairs, k, q) for k in [n for n, _, _ in real_pairs] + PROTO_NAMES + ['Foo', 'Ref:Table1', ':', '']
+           for q in (None, True)]
+  for _ in range(ctx.n(150, 2500)):
+    tkept.append(gen_ts_case(ctx.rng, real_pairs))
+  tables, index = [], {}
+  for table, _, _ in tkept:
+    src = js_table(table)
+    if src not in index:
+      index[src] = len(tables)
+      tables.append(src)
+  res = node_run_ts_functions(detyped_ts_functions(gt), tables, [(index[js_table(tb)], t, q) for tb, t, q in tkept])
+  if res is None:
+    ctx.notes.append('node not found: the translated gristTypes.ts functions were not run against the real ones')
+    return
+  results, proto = res
+  ctx.bump('monitor:object-prototype-names')
+  if proto != PROTO_NAMES:
+    ctx.broken('monitor:Object.prototype property names', 'node has %r, Lib.JsPrelude assumes %r' % (proto, PROTO_NAMES))
+  tcases = []
+  for (table, t, q), (w, ext) in zip(tkept, results):
+    exp = {'undefined': 'EUndef', 'throw': 'EThrow'}.get(w[0]) or '(EWire %s)' % coq_wire(w if w[0] != 'other' else ('bad',))
+    inherited = pure_type(t) in PROTO_NAMES and pure_type(t) not in [k for k, _, _ in table]
+    ctx.count(('tsfn', js_table(table), t, q), nontrivial=True,
+              kind='tsfn:' + ('inherited-name' if inherited else 'listed' if pure_type(t) in [k for k, _, _ in table] else 'fallback'))
+    tcases.append('(%s, %s, %s, %s, %s)' % (
+      core.coq_list(['(%s, (%s, TsStr %s))' % (S(k), coq_ts_lit(v), S(sq)) for k, v, sq in table]), S(t),
+      core.boollit(bool(q)), exp, 'None' if ext is None else '(Some %s)' % S(ext)))
+  bad = ctx.run_cases(
+    'tsfuncs', ['Grist.Model.JsSchema', 'GristGen.TsGen_gen'],
+    'fun c => match c with (tbl, ct, q, e, ext) => exp_ok (TsGen_gen.getDefaultForType tbl ct q) e && '
+    'match ext with Some x => zs_eqb (TsGen_gen.extractTypeFromColType ct) x | None => true end end', tcases, shard=60,
+    extra_defs='Inductive exp := EUndef | EThrow | EWire (w : wire).\n'
+               'Definition exp_ok (r : ts_lit) (e : exp) : bool := match e, r with EUndef, TsUndefined => true '
+               '| EThrow, TsMissing => true | EWire w, TsUndefined => false | EWire w, TsMissing => false '
+               '| EWire w, _ => wire_eqb (ts_wire r) w | _, _ => false end.')
+  ctx.extra['translator_validation']['ts2v getDefaultForType/extractTypeFromColType vs node running gristTypes.ts'] = \
+      {'cases': len(tcases), 'disagree': len(bad)}
+  for i in bad[:5]:
+    ctx.broken('correspondence:translated gristTypes.ts functions differ from node running them', 'case %r -> %r' % (tkept[i], results[i]))
+  ctx.log('ts function cases evaluated: %d of %d disagree' % (len(bad), len(tcases)))
 
 
 # ---------------------------------------------------------------------------------------------
